@@ -98,12 +98,118 @@ type presence struct {
 	lookup ssa.Instruction
 	key    ssa.Value
 	entry  ssa.Value // the looked-up Response (nil when only presence is tested)
+	taken  bool      // established by a take helper: the entry is already removed from the table
+}
+
+// takeHelper recognises a private "look up and remove" helper: a function with
+// one result that looks its key parameter up in table and, on every path that
+// returns a non-nil value, returns that very entry after deleting the key,
+// without releasing lock in between. It returns the index of the key parameter.
+func takeHelper(c *chk.Ctx, h *ssa.Function, table *types.Var, lock facts.Path) (int, bool) {
+	if h == nil || !c.P.InRepo[h] || ir.Exported(h) || h.Signature.Results().Len() != 1 || len(h.Blocks) == 0 {
+		return -1, false
+	}
+	var lk *ssa.Lookup
+	n := 0
+	ir.Instrs(h, func(ins ssa.Instruction) {
+		if l, ok := ins.(*ssa.Lookup); ok && chk.LoadsField(l.X, table) {
+			lk = l
+			n++
+		}
+	})
+	if n != 1 {
+		return -1, false
+	}
+	kp, ok := ir.NormCell(lk.Index).(*ssa.Parameter)
+	if !ok {
+		return -1, false
+	}
+	idx := -1
+	for i, p := range h.Params {
+		if p == kp {
+			idx = i
+		}
+	}
+	nonNil := 0
+	for _, r := range ir.Returns(h) {
+		v := ir.NormCell(ir.ReturnResult(r, 0))
+		if ir.IsNilConst(v) {
+			continue
+		}
+		nonNil++
+		isEntry := v == ssa.Value(lk)
+		if e, ok := v.(*ssa.Extract); ok && e.Index == 0 && e.Tuple == ssa.Value(lk) {
+			isEntry = true
+		}
+		if !isEntry {
+			return -1, false
+		}
+		deleted := false
+		ir.Instrs(h, func(ins ssa.Instruction) {
+			call, ok := isDeleteOn(ins, table)
+			if !ok || ir.NormCell(call.Call.Args[1]) != ssa.Value(kp) || !ir.InstrDominates(lk, call) {
+				return
+			}
+			if ir.InstrDominates(call, r) {
+				deleted = true
+				return
+			}
+			// `if e != nil { delete }; return e`: from the hit edge every path passes the delete
+			for _, cd := range ir.CondsAt(call.Block()) {
+				x, eq, ok := ir.NilCompare(cd.V)
+				hit := ok && ir.NormCell(x) == ssa.Value(lk) && eq != cd.Truth
+				if e, isE := cd.V.(*ssa.Extract); isE && e.Tuple == ssa.Value(lk) && e.Index == 1 && cd.Truth {
+					hit = true
+				}
+				if !hit {
+					continue
+				}
+				succ := succOfCond(cd)
+				if succ == nil || len(succ.Instrs) == 0 {
+					continue
+				}
+				isDel := func(i ssa.Instruction) bool { return i == ssa.Instruction(call) }
+				if isDel(succ.Instrs[0]) {
+					deleted = true
+				} else if ok, _ := (ir.PathQuery{Goal: isDel}).MustReach(succ.Instrs[0]); ok {
+					deleted = true
+				}
+			}
+		})
+		if !deleted {
+			return -1, false
+		}
+		for _, ins := range between(lk, r) {
+			if releases(c, ins, lock) {
+				return -1, false
+			}
+		}
+	}
+	return idx, nonNil > 0 && idx >= 0
 }
 
 // findPresence: a lookup in table whose hit edge dominates `at`.
 func findPresence(c *chk.Ctx, f *ssa.Function, table *types.Var, at ssa.Instruction) []presence {
 	var out []presence
 	conds := ir.CondsAt(at.Block())
+	// through a take helper: `e := take(k); e != nil` dominating at
+	for _, cd := range conds {
+		x, eq, ok := ir.NilCompare(cd.V)
+		if !ok || eq == cd.Truth {
+			continue
+		}
+		call, ok := ir.NormCell(x).(*ssa.Call)
+		if !ok {
+			continue
+		}
+		owner, _ := tableOwner(c, f)
+		if owner == "" {
+			continue
+		}
+		if idx, ok := takeHelper(c, call.Call.StaticCallee(), table, ownerLock(c, owner)); ok && idx < len(call.Call.Args) {
+			out = append(out, presence{call, c.P.Canon(call.Call.Args[idx]), call, true})
+		}
+	}
 	ir.Instrs(f, func(ins ssa.Instruction) {
 		lk, ok := ins.(*ssa.Lookup)
 		if !ok || !chk.LoadsField(lk.X, table) {
@@ -112,10 +218,10 @@ func findPresence(c *chk.Ctx, f *ssa.Function, table *types.Var, at ssa.Instruct
 		for _, cd := range conds {
 			if lk.CommaOk {
 				if e, ok := cd.V.(*ssa.Extract); ok && e.Tuple == ssa.Value(lk) && e.Index == 1 && cd.Truth {
-					out = append(out, presence{lk, ir.NormCell(lk.Index), nil})
+					out = append(out, presence{lk, ir.NormCell(lk.Index), nil, false})
 				}
 			} else if x, eq, ok := ir.NilCompare(cd.V); ok && x == ssa.Value(lk) && eq != cd.Truth {
-				out = append(out, presence{lk, ir.NormCell(lk.Index), lk})
+				out = append(out, presence{lk, ir.NormCell(lk.Index), lk, false})
 			}
 		}
 	})
@@ -176,7 +282,7 @@ func ruleTokenWrite(c *chk.Ctx, owner string) {
 					del = call
 				}
 			})
-			if del == nil {
+			if del == nil && !p.taken {
 				why = fmt.Sprintf("the id is not removed from %s between the lookup and the slot write: the entry stays claimable, so the slot can be written twice", s.table.Name())
 				continue
 			}
@@ -246,7 +352,7 @@ func paramTiedToKey(c *chk.Ctx, f *ssa.Function, resp *ssa.Parameter, key ssa.Va
 		tied := false
 		// k == r.id
 		if u, ok := k.(*ssa.UnOp); ok {
-			if fa, ok := u.X.(*ssa.FieldAddr); ok && ir.FieldVar(fa) == c.M.RID && ir.NormCell(fa.X) == r {
+			if fa, ok := u.X.(*ssa.FieldAddr); ok && ir.FieldVar(fa) == c.M.RID && ir.SameValue(fa.X, r) {
 				tied = true
 			}
 		}
@@ -258,6 +364,16 @@ func paramTiedToKey(c *chk.Ctx, f *ssa.Function, resp *ssa.Parameter, key ssa.Va
 						if st, ok := r2.(*ssa.Store); ok && ir.NormCell(st.Val) == k {
 							tied = true
 						}
+					}
+				}
+			}
+		}
+		if !tied {
+			// both handed down unchanged from the caller's own parameters: decided at its call sites
+			if kp2, ok := k.(*ssa.Parameter); ok {
+				if rp2, ok := r.(*ssa.Parameter); ok && kp2.Parent() == rp2.Parent() && kp2.Parent() != f {
+					if ok2, _ := paramTiedToKey(c, kp2.Parent(), rp2, kp2); ok2 {
+						tied = true
 					}
 				}
 			}
@@ -382,17 +498,20 @@ func ruleTokenClose(c *chk.Ctx) {
 				return
 			}
 			nClose++
-			ok2 := false
-			for _, r := range recvs {
-				if r.Parent() != f || !r.CommaOk {
-					continue
-				}
-				for _, cd := range ir.CondsAt(call.Block()) {
-					if e, isE := cd.V.(*ssa.Extract); isE && e.Tuple == ssa.Value(r) && e.Index == 1 && cd.Truth {
-						ok2 = true
+			// in the receiving function, or in a private helper reached only on the receive's ok edge
+			ok2 := c.P.AllContexts(call, nil, func(cs []ir.Cond) bool {
+				for _, r := range recvs {
+					if !r.CommaOk {
+						continue
+					}
+					for _, cd := range cs {
+						if e, isE := cd.V.(*ssa.Extract); isE && e.Tuple == ssa.Value(r) && e.Index == 1 && cd.Truth {
+							return true
+						}
 					}
 				}
-			}
+				return false
+			})
 			c.Check(ok2, "TOKEN.close", f, "slot closed by its receiver", call.Pos(), "closed only after a successful receive from the same slot, in the single receiving function", "a response slot is closed elsewhere than after a successful receive in its receiver: a pending writer would panic")
 		})
 	}
@@ -425,7 +544,7 @@ func ruleTokenRegister(c *chk.Ctx, owner string) {
 			resp := ir.NormCell(mu.Value)
 			keyOK := false
 			if u, ok := mu.Key.(*ssa.UnOp); ok {
-				if fa, ok := u.X.(*ssa.FieldAddr); ok && ir.FieldVar(fa) == c.M.RID && ir.NormCell(fa.X) == ir.NormCell(resp) {
+				if fa, ok := u.X.(*ssa.FieldAddr); ok && ir.FieldVar(fa) == c.M.RID && ir.SameValue(fa.X, resp) {
 					keyOK = true
 				}
 			}
@@ -452,7 +571,7 @@ func ruleTokenRegister(c *chk.Ctx, owner string) {
 					return
 				}
 				for _, a := range g.Call.Args {
-					if ir.NormCell(a) == ir.NormCell(resp) {
+					if ir.SameValue(a, resp) {
 						watcher = g
 					}
 				}
@@ -601,11 +720,11 @@ func ruleHooks(c *chk.Ctx) {
 				// the closure that runs the hook is installed only after the token was taken (slot written),
 				// or the hook is called inline after the slot write
 				installed := false
-				ir.Instrs(f, func(i3 ssa.Instruction) {
-					if s, ok := i3.(*ssa.Send); ok && chk.LoadsField(s.Chan, c.M.RCh) && ir.InstrDominates(s, ci) {
+				for _, ss := range slotSends(c) {
+					if ss.owner == "client" && c.P.IDominates(ss.send, ci) {
 						installed = true
 					}
-				})
+				}
 				if f.Parent() != nil {
 					ir.Instrs(f.Parent(), func(i2 ssa.Instruction) {
 						mc, ok := i2.(*ssa.MakeClosure)
@@ -622,6 +741,26 @@ func ruleHooks(c *chk.Ctx) {
 				c.Check(installed, "HOOK.cancel", f, "OnCancel only for the ender", ci.Pos(), "the hook closure is created only after this goroutine wrote the slot (it ended the request, no reply did)", "the cancel hook can be scheduled on a path that did not end the request: it could run for an answered request, or twice")
 			case chk.LoadsField(v, c.M.CShook):
 				okLock := st.Has(facts.NotHeld, lock)
+				if _, isDefer := ins.(*ssa.Defer); isDefer {
+					// a deferred hook runs when the function's deferred calls run: the lock must be
+					// released by then, and no deferred unlock may be pending (it would run after the hook)
+					okLock = true
+					nrd := 0
+					ir.Instrs(f, func(i2 ssa.Instruction) {
+						if rd, ok := i2.(*ssa.RunDefers); ok {
+							if hit, _ := ir.Reaches(ins, func(i ssa.Instruction) bool { return i == ssa.Instruction(rd) }, nil); !hit {
+								return // this exit is not reached after the hook was deferred
+							}
+							nrd++
+							if !c.F.At(rd).Has(facts.NotHeld, lock) {
+								okLock = false
+							}
+						}
+					})
+					if nrd == 0 {
+						okLock = false
+					}
+				}
 				c.Check(okLock, "HOOK.stop", f, "OnStop outside the lock", ci.Pos(), "the stop hook runs with "+lock.String()+" definitely released", "the stop hook may run with the client lock held")
 				// it is the closure returned on the non-guard path of the stop function
 				stop := stopFunc(c, "client")
@@ -629,13 +768,6 @@ func ruleHooks(c *chk.Ctx) {
 				if okWhere {
 					ir.Instrs(stop, func(i2 ssa.Instruction) {
 						if mc, ok := i2.(*ssa.MakeClosure); ok && mc.Fn == f {
-							s2 := c.F.At(mc)
-							if !s2.Has(facts.IsNil, chk.PathOfVar(c.M.Client, c.M.CCh)) && !s2.Has(facts.NonNil, chk.PathOfVar(c.M.Client, c.M.CErr)) {
-								// created after ch was cleared: i.e. on the stopping path
-								if ok, _ := (ir.PathQuery{Goal: func(i ssa.Instruction) bool { return false }}).MustReach(mc); ok {
-									_ = ok
-								}
-							}
 							// must be dominated by the Close call (the path that actually stops)
 							dom := false
 							for _, cs := range chanSites(c, "Close") {
@@ -646,6 +778,39 @@ func ruleHooks(c *chk.Ctx) {
 							okWhere = dom
 						}
 					})
+				} else if stop != nil {
+					// or: the caller runs the hook exactly when the stop function reports (true) that
+					// this call was the one that closed the channel
+					for _, cd := range ir.CondsAt(ins.Block()) {
+						call, ok := cd.V.(*ssa.Call)
+						if !ok || call.Call.StaticCallee() != stop || !cd.Truth {
+							continue
+						}
+						good, nTrue := true, 0
+						for _, r := range ir.Returns(stop) {
+							k, isK := ir.ReturnResult(r, 0).(*ssa.Const)
+							if !isK || k.Value == nil {
+								good = false
+								continue
+							}
+							if k.Value.String() != "true" {
+								continue
+							}
+							nTrue++
+							dom := false
+							for _, cs := range chanSites(c, "Close") {
+								if cs.owners["client"] && c.P.IDominates(cs.instr, r) {
+									dom = true
+								}
+							}
+							if !dom {
+								good = false
+							}
+						}
+						if good && nTrue > 0 {
+							okWhere = true
+						}
+					}
 				}
 				c.Check(okWhere, "HOOK.stop", f, "OnStop only for the first stop", ci.Pos(), "the hook is invoked only by the closure the stop function returns on the path that actually closed the channel", "the stop hook can run on a path that did not stop the client (it would run more than once)")
 			}
